@@ -9,13 +9,10 @@
    attribute nodes, then its children — the numbering of harness/pat.cpp).  A parent link is only
    honoured when it points to a smaller index, so every walk towards the root terminates.
 
-   Quirk of the code kept on purpose (see Properties_C09.v):
-     Q4  an any-ancestor step takes the nearest ancestor that satisfies it and never backtracks (K15).
-         (FROM_ROOT directly after an any-ancestor step re-tests that step on the top-level ancestor,
-         which is complete for '/a//b...'; K14 repaired.)
-   Repaired in /repo and modelled as repaired (commits f650494, cb2fe18, 335a1a5): a child-axis step
-   never accepts the document node; an attribute step only accepts attribute nodes; the forward re-run
-   of an attribute step tests attributes by attribute name. *)
+   The matcher works right to left; an any-ancestor step looks for the nearest ancestor that satisfies
+   it and, when the step to its left must match that ancestor's parent exactly, from whose parent the steps
+   to the left match (stepPattern re-enters itself on the steps to the left).  Repaired in /repo and
+   modelled as repaired: f650494, cb2fe18, 335a1a5, 60b686c (K14) and the K15 repair (fixes/C09/01-K15). *)
 From Coq Require Import List Bool Arith.
 Import ListNotations.
 
@@ -159,30 +156,13 @@ Inductive mstep :=
   | MRoot                                              (* FROM_ROOT *)
   | MAttr (t : ntest) (ps : list predi)                (* MATCH_ATTRIBUTE *)
   | MAnyWP                                             (* MATCH_ANY_ANCESTOR_WITH_PREDICATE + node(): leading '//' *)
-  | MAny (t : ntest) (ps : list predi)                 (* MATCH_ANY_ANCESTOR *)
+  | MAny (t : ntest) (ps : list predi) (lc : option (nat -> bool))
+                                                       (* MATCH_ANY_ANCESTOR; lc: the check of the steps to the
+                                                          left, made when the step to the left is exact *)
   | MImm (t : ntest) (ps : list predi).                (* MATCH_IMMEDIATE_ANCESTOR *)
 
 Definition next_is_desc (r : list (sep * sstep)) : bool :=
   match r with (SDesc, _) :: _ => true | _ => false end.
-
-(* AbbreviatedNodeTestStep: attribute steps stay MATCH_ATTRIBUTE; a child step followed by '//' is
-   rewritten to MATCH_ANY_ANCESTOR *)
-Fixpoint compile_steps (steps : list (sep * sstep)) : list mstep :=
-  match steps with
-  | [] => []
-  | (_, st) :: r =>
-      (if s_attr st then MAttr (s_test st) (s_preds st)
-       else if next_is_desc r then MAny (s_test st) (s_preds st)
-       else MImm (s_test st) (s_preds st)) :: compile_steps r
-  end.
-
-(* LocationPathPattern *)
-Definition compile (p : path) : list mstep :=
-  (match p_head p with
-   | HRel => []
-   | HAbs => if next_is_desc (p_steps p) then [MAnyWP] else [MRoot]
-   | HFunc fs => if next_is_desc (p_steps p) then [MFunc fs; MAnyFn] else [MFunc fs]
-   end) ++ compile_steps (p_steps p).
 
 (** * the matcher *)
 (* XPath::step for a MATCH_* op: one forward step from the parent, all predicates applied *)
@@ -216,7 +196,9 @@ Fixpoint do_preds (fi : bool) (ps : list predi) (c : nat) (score : bool) : bool 
   end.
 
 Definition is_anyfn (s : mstep) : bool := match s with MAnyFn => true | _ => false end.
-Definition is_any (s : mstep) : bool := match s with MAny _ _ | MAnyWP => true | _ => false end.
+Definition is_any (s : mstep) : bool := match s with MAny _ _ _ | MAnyWP => true | _ => false end.
+(* the step types that can match any ancestor (leftStepType in stepPattern) *)
+Definition any_like (s : mstep) : bool := match s with MAny _ _ _ | MAnyWP | MAnyFn => true | _ => false end.
 Definition head_is_any (l : list mstep) : bool := match l with s :: _ => is_any s | [] => false end.
 Definition head_is_anyfn (l : list mstep) : bool := match l with s :: _ => is_anyfn s | [] => false end.
 
@@ -227,13 +209,11 @@ Definition step_ok (D : doc) (attr : bool) (t : ntest) (ps : list predi) (c : na
    else negb (is_attr (kind_of D c)) && negb (is_root (kind_of D c)) && child_test t (kind_of D c))
   && do_preds (found_index D attr t ps c) ps c true.
 
-(* FROM_ROOT after an any-ancestor step: the first ancestor-or-self whose parent is a root node *)
-Definition below_root (D : doc) (a : nat) : bool :=
-  match parent D a with Some p => is_root (kind_of D p) | None => false end.
-Definition root_retry (D : doc) (c : nat) (F : nat -> bool) : option nat * bool :=
-  match find (below_root D) (aos D c) with
-  | Some e => if F e then (parent D e, true) else (Some c, false)
-  | None => (Some c, false)
+(* fCheckLeft: an ancestor is only accepted if the steps to the left match from its parent *)
+Definition left_ok (D : doc) (lc : option (nat -> bool)) (a : nat) : bool :=
+  match lc with
+  | None => true
+  | Some f => match parent D a with Some p => f p | None => false end
   end.
 
 Definition body (D : doc) (st : mstep) (rest : list mstep) (c : nat) : option nat * bool :=
@@ -246,25 +226,18 @@ Definition body (D : doc) (st : mstep) (rest : list mstep) (c : nat) : option na
            | None => (None, false)
            end
       else (Some c, fs c)
-  | MRoot =>
-      if is_root (kind_of D c) then (Some c, true)
-      else match rest with                             (* the any-ancestor step took the nearest candidate; *)
-           | MAny t ps :: _ =>                         (* the only one that can be a child of the root is the *)
-               root_retry D c (fun e =>                (* top-level ancestor: re-test the step on it *)
-                 child_test t (kind_of D e) && do_preds (found_index D false t ps e) ps e true)
-           | MAnyWP :: _ => root_retry D c (fun _ => true)
-           | _ => (Some c, false)
-           end
+  | MRoot => (Some c, is_root (kind_of D c))
   | MAnyWP =>                                          (* node() on the context itself: always the first hit *)
       if is_attr (kind_of D c) then (Some c, false) else (Some c, true)
   | MAttr t ps => (Some c, step_ok D true t ps c)
   | MImm t ps => (Some c, step_ok D false t ps c)
-  | MAny t ps =>
+  | MAny t ps lc =>
       if is_attr (kind_of D c) then (Some c, false)
       else match find (fun a => negb (is_root (kind_of D a)) && child_test t (kind_of D a)
-                                && do_preds (found_index D false t ps a) ps a true) (aos D c) with
-           | Some a => (Some a, true)                  (* nearest ancestor-or-self satisfying the step *)
-           | None => (None, false)
+                                && do_preds (found_index D false t ps a) ps a true
+                                && left_ok D lc a) (aos D c) with
+           | Some a => (Some a, true)                  (* nearest ancestor-or-self satisfying the step from *)
+           | None => (None, false)                     (* whose parent the steps to the left match *)
            end
   end.
 
@@ -291,31 +264,45 @@ Fixpoint step_pattern (D : doc) (steps : list mstep) (ctx : nat) : option nat * 
       end
   end.
 
+(* The pattern compiler (AbbreviatedNodeTestStep: attribute steps stay MATCH_ATTRIBUTE, a child step followed
+   by '//' is rewritten to MATCH_ANY_ANCESTOR; LocationPathPattern for the head), together with what an
+   any-ancestor step finds out at run time about the steps to its left: acc are the compiled steps to the
+   left (stepPattern re-enters itself on them, from firstPos up to stopPos = this step), left the step
+   immediately to the left. *)
+Definition left_check (D : doc) (acc : list mstep) (left : option mstep) : option (nat -> bool) :=
+  match left with
+  | None => None
+  | Some l => if any_like l then None else Some (fun p => snd (step_pattern D acc p))
+  end.
+
+Fixpoint compile_steps (D : doc) (acc : list mstep) (left : option mstep) (steps : list (sep * sstep))
+  : list mstep :=
+  match steps with
+  | [] => []
+  | (_, st) :: r =>
+      let m := if s_attr st then MAttr (s_test st) (s_preds st)
+               else if next_is_desc r then MAny (s_test st) (s_preds st) (left_check D acc left)
+               else MImm (s_test st) (s_preds st) in
+      m :: compile_steps D (acc ++ [m]) (Some m) r
+  end.
+
+Definition head_steps (h : head) (steps : list (sep * sstep)) : list mstep :=
+  match h with
+  | HRel => []
+  | HAbs => if next_is_desc steps then [MAnyWP] else [MRoot]
+  | HFunc fs => if next_is_desc steps then [MFunc fs; MAnyFn] else [MFunc fs]
+  end.
+Definition last_step (l : list mstep) : option mstep :=
+  match rev l with [] => None | m :: _ => Some m end.
+
+Definition compile (D : doc) (p : path) : list mstep :=
+  let h := head_steps (p_head p) (p_steps p) in
+  h ++ compile_steps D h (last_step h) (p_steps p).
+
 (* locationPathPattern / doGetMatchScore: the first alternative with a score wins; only match / no
    match is modelled *)
-Definition match_path (D : doc) (p : path) (n : nat) : bool := snd (step_pattern D (compile p) n).
+Definition match_path (D : doc) (p : path) (n : nat) : bool := snd (step_pattern D (compile D p) n).
 Definition matches (D : doc) (P : pattern) (n : nat) : bool := existsb (fun p => match_path D p n) P.
-
-(** * guards (decidable, on the pattern only) *)
-(* G1 (K14/K15): the written separators read SDesc* SChild* — nothing but '//' to the left of a '//' *)
-Fixpoint all_child (l : list (sep * sstep)) : bool :=
-  match l with [] => true | (SChild, _) :: r => all_child r | (SDesc, _) :: _ => false end.
-Fixpoint desc_then_child (l : list (sep * sstep)) : bool :=
-  match l with
-  | [] => true
-  | (SDesc, _) :: r => desc_then_child r
-  | (SChild, _) :: r => all_child r
-  end.
-Definition no_left_of_any (p : path) : bool :=
-  match p_head p, p_steps p with
-  | HRel, _ :: r => desc_then_child r                  (* the first separator of a relative path is not written *)
-  | HRel, [] => true
-  | HAbs, (SChild, _) :: r => desc_then_child r        (* '/a//b': FROM_ROOT re-tests the top-level ancestor *)
-  | _, l => desc_then_child l
-  end.
-
-Definition guard_path (p : path) : bool := no_left_of_any p.
-Definition guard (P : pattern) : bool := forallb guard_path P.
 
 (* syntactic well-formedness: at least one step unless the head stands alone; a relative path starts
    with a plain step *)
@@ -399,6 +386,4 @@ Definition path_of (D : doc) (p : cpath) : path :=
 
 Definition c_match (D : doc) (P : list cpath) (n : nat) : bool := matches D (map (path_of D) P) n.
 Definition c_select (D : doc) (P : list cpath) (n : nat) : bool := selectsb D (map (path_of D) P) n.
-Definition c_guard (D : doc) (P : list cpath) : bool := guard (map (path_of D) P).
-Definition c_no_left_of_any (D : doc) (P : list cpath) : bool := forallb no_left_of_any (map (path_of D) P).
 Definition c_shape (D : doc) (P : list cpath) : bool := forallb wf_path_shape (map (path_of D) P).
